@@ -3,6 +3,7 @@ import Driver.Util
 import SpyneModel.Dispatch
 import SpyneModel.DispatchHttp
 import SpyneModel.DispatchBytes
+import SpyneModel.DispatchSoap
 import SpyneModel.Generated.Facts11
 open Lean SpyneModel SpyneModel.Dispatch Driver
 
@@ -19,14 +20,14 @@ def jsonText (j : Json) : Text :=
   | .arr a => a.toList.map (fun c => match c.getNat? with | .ok n => Char.ofNat n | .error _ => '?')
   | _ => []
 
-def getPattern (j : Json) : Option (List Text) × Text :=
+def getPattern (j : Json) : Option (List Text) × Option Text :=
   match j with
   | .arr a =>
     let verb : Option (List Text) := match (a[0]? : Option Json) with
       | some (Json.arr alts) => some (alts.toList.map jsonText)
       | _ => none
-    (verb, match a[1]? with | some t => jsonText t | none => [])
-  | _ => (none, [])
+    (verb, match a[1]? with | some (Json.arr t) => some (jsonText (Json.arr t)) | _ => none)
+  | _ => (none, none)
 
 def getMethodDecl (j : Json) : MethodDecl :=
   { fid := getNat j "fid", func := getText j "func", opName := getOptText j "op",
@@ -57,12 +58,23 @@ def getRequest (r : Routes) (j : Json) : Request :=
 def getBytes (j : Json) (k : String) : List Nat :=
   (getArr j k).toList.map (fun c => match c.getNat? with | .ok n => n | .error _ => 0)
 
+/-- element tree: [ns|null, local, [children]] -/
+partial def getXml (j : Json) : Xml :=
+  match j with
+  | .arr a =>
+    let ns : Option Text := match (a[0]? : Option Json) with | some (Json.arr t) => some (jsonText (Json.arr t)) | _ => none
+    let loc : Text := match a[1]? with | some t => jsonText t | none => []
+    let cs : List Xml := match (a[2]? : Option Json) with | some (Json.arr c) => c.toList.map getXml | _ => []
+    .node ns loc cs
+  | _ => .node none [] []
+
 /-- what the request amounts to: byte-named requests go through the wire-name decoder -/
 def serveJson (r : Routes) (tns : Text) (q : Json) : Resp :=
   match getStr q "k" with
   | "rpcb" => serveWire F r tns .rpcName (.bin (getBytes q "b"))
   | "keyb" => serveWire F r tns .key (.bin (getBytes q "b"))
   | "http" => serveHttp F r tns (getText q "verb") (getText q "path") (getText q "query")
+  | "soap" => serveSoap F r tns (getText q "env") (getXml ((q.getObjVal? "doc").toOption.getD Json.null))
   | "keys" => serveDoc F r tns ((getArr q "ns").toList.map (fun t => WireName.text (jsonText t)))
   | _ => serve F r tns (getRequest r q)
 
